@@ -158,6 +158,10 @@ class Universe:
             opts.append("init=False")
         if f.kw_only:
             opts.append("kw_only=True")
+        if f.role == "Prop" and (len(f.name) + len(ann)) % 4 == 0:
+            # dataclasses' own hash= option, set against compare=: "comparable" is what compare= says, nothing else
+            # (seeded change C12-12)
+            opts.append("hash=False" if f.compare else "hash=True")
         if not opts:
             return f"{f.name}: {ann}"
         if f.has_default and len(opts) == 1:
